@@ -342,6 +342,20 @@ theorem source_cache_assembled (h : Hist K) (other bins : List (K × K)) (mn mx 
                         cap := Gen.Distogram.binCount } :=
   ⟨trimIndex_def h, computeDiffs_def h, merge_def h other, by rw [load_def, loadDiffs_eq_gaps]⟩
 
+/-- **`acc += part` is `acc + part`** (the other spelling of "+ of independently built histograms";
+`Gen.Distogram.augmentedAdd` / `classDunders` regenerated from the body of `class Distogram` on every run).  The class
+defines no `__iadd__` of its own (or one that hands over to `__add__`), so Python resolves the augmented assignment —
+and `operator.iadd`, and each step of `sum(parts, acc)` / `functools.reduce(operator.add, …)` — to `__add__`, whose
+bounds are the exact ones of `source_operations` (`addGuard`/`addMin`/`addMax`: the smaller minimum and the larger
+maximum of the two operands' exact bounds whenever the operand has any).  An `__iadd__` that returns the bare
+`merge(self, operand)` would report the operand's outermost bin centres instead (`merge_bounds_not_exact`). -/
+theorem iadd_is_add (a b : K) (omin omax : Option K) :
+    Gen.Distogram.augmentedAdd = "__add__" ∧
+    Gen.DistogramOps.addGuard omin omax = omin.isSome ∧
+    Gen.DistogramOps.addMin a b = min a b ∧ Gen.DistogramOps.addMax a b = max a b := by
+  have h := source_operations (K := K) 0 0 0 0 a b a a a omin omax
+  exact ⟨by decide, h.2.1, h.2.2.1, h.2.2.2.1⟩
+
 /-- **The first value of a stream sets both bounds** (and so does every later one that is a new extreme): after a
 successful `update` of the *empty* histogram the minimum and the maximum are both the inserted value — single-value
 streams, streams whose first value is the largest, strictly descending streams. -/
